@@ -59,19 +59,30 @@ def judge_dec(ctx, schema, paths, name, par=12, timeout=3000):
     return total, bad, states, gen
 
 
-def members_differing(schema, sname, a, e, path=""):
-    """Paths of members where canonical values a and e differ (descends into nested structs only)."""
+def members_differing(schema, sname, a, e, path="", anc=None):
+    """Paths of members where canonical values a and e differ; descends into nested structs and, element by
+    element, into vectors/arrays of equal length.  Each entry is (path, member): member is the outermost enclosing
+    optional member without a declared default if there is one (an absent optional struct leaves its own
+    members stale), else the differing member itself; None when the shapes differ."""
     out = []
     S = schema["structs"][sname]
     if not isinstance(a, list) or not isinstance(e, list) or len(a) != len(S) or len(e) != len(S):
         return [(path or sname, None)]
-    for m, x, y in zip(S, a, e):
+
+    def walk(ty, x, y, pth, anc, m):
         if x == y:
-            continue
-        if m["ty"]["k"] == "struct":
-            out += members_differing(schema, m["ty"]["name"], x, y, path + m["name"] + ".")
+            return
+        if ty["k"] == "struct":
+            out.extend(members_differing(schema, ty["name"], x, y, pth + ".", anc))
+        elif ty["k"] in ("vec", "arr") and isinstance(x, list) and isinstance(y, list) and len(x) == len(y):
+            for i, (xi, yi) in enumerate(zip(x, y)):
+                walk(ty["el"], xi, yi, "%s[%d]" % (pth, i), anc, m)
         else:
-            out.append((path + m["name"], m))
+            out.append((pth, (anc or m) if y == m["def"] else dict(m, req=True)))   # stale only if the fresh decode shows the default
+
+    for m, x, y in zip(S, a, e):
+        stale_anc = anc or (m if (not m["req"] and not m["hasdef"]) else None)
+        walk(m["ty"], x, y, path + m["name"], stale_anc if m["ty"]["k"] in ("struct", "vec", "arr") else anc, m)
     return out
 
 
@@ -85,3 +96,15 @@ def first_records(paths, n, pred=None):
                 if len(out) >= n:
                     return out
     return out
+
+
+def panic_class(text):
+    """Stable short class of a panic / fatal-error message (digits and addresses removed)."""
+    t = text.lower()
+    for key, name in (("makeslice", "makeslice-len-out-of-range"), ("out of memory", "out-of-memory"),
+                      ("cannot allocate", "out-of-memory"), ("index out of range", "index-out-of-range"),
+                      ("slice bounds", "slice-bounds-out-of-range"), ("stack", "stack-overflow"),
+                      ("nil pointer", "nil-pointer"), ("hang", "hang"), ("makemap", "makemap-size-out-of-range")):
+        if key in t:
+            return name
+    return re.sub(r"[^a-z]+", "-", t)[:40].strip("-")
